@@ -35,6 +35,8 @@ var fixtureExpects = map[string]fixtureExpect{
 		[]string{"par2.writeOverwriting$1:store(err)#0"}, []string{"par2.writeKeeping$1:store(err)#0"}},
 	"EXTCUT": {"EXTCUT", func(w *World, r *Report) { ruleEXTCUT(w, r) },
 		[]string{"par2.baseByCutset:strings.TrimRight#0"}, nil},
+	"DIVZERO": {"DIVZERO", func(w *World, r *Report) { ruleDIVZERO(w, r, "cmd/par") },
+		[]string{"cmd/par.rateUnchecked:div#0"}, []string{"cmd/par.rateChecked:div#0"}},
 	"IDXLEN": {"IDXLEN", func(w *World, r *Report) { ruleIDXLEN(w, r, "gf2p16") },
 		[]string{"gf2p16.hintUnchecked:index#0"}, []string{"gf2p16.hintChecked:index#0"}},
 	"FMTCONST": {"FMTCONST", func(w *World, r *Report) { ruleFMTCONST(w, r) },
